@@ -120,7 +120,9 @@ def run_kernel(kernel: str, repo: str, workdir: str, rlimit=None, timeout=900, c
     failed = []
     canary_seen = False
     for d in diags:
-        spans = d['spans']
+        # only spans inside the emitted file carry line numbers that mean anything for tags / function names
+        # (a failed std precondition has its label span in vstd's std_specs/*.rs)
+        spans = [s for s in d['spans'] if os.path.basename(s.get('file_name', '')) == os.path.basename(out_rs)] or d['spans']
         lab = [s for s in spans if s.get('label') and 'failed' in s['label']]
         prim = [s for s in spans if s.get('is_primary')]
         key = (lab or prim or spans)[0]
@@ -132,6 +134,10 @@ def run_kernel(kernel: str, repo: str, workdir: str, rlimit=None, timeout=900, c
         t = tag_at(line)
         # a failed precondition at a call site: name caller (primary span) and callee clause (label span)
         site = prim[0]['line_start'] if prim else line
+        if t and d['message'].startswith('precondition not satisfied'):
+            # a callee's tagged precondition failing at a call site: the obligation is that clause AT THAT CALLER, so that a
+            # recorded finding for one call site never hides the same clause failing somewhere else
+            t = dict(t, id='%s@%s' % (t['id'], fn_at(site)))
         failed.append(dict(message=d['message'], obligation=(t['id'] if t else '%s.%s' % (fn_at(site), re.sub(r'[^a-z0-9]+', '_', d['message'].lower()).strip('_')[:60])), props=(t['props'] if t else []),
                            function=fn_at(site), line=site, text=src_lines[site - 1].strip()[:200] if site - 1 < len(src_lines) else '',
                            rendered=d.get('rendered', '')[:1500]))
